@@ -19,22 +19,9 @@ const (
 func ExtractGPUSharingRequestedResources(pod *v1.Pod) (v1.ResourceList, error) {
 	resources := v1.ResourceList{}
 
-	fractionsCount := int64(1)
-	gpuFractionsCountStr, hasAnnotation := pod.Annotations[constants.GpuFractionsNumDevices]
-	if hasAnnotation {
-		quantity, err := resource.ParseQuantity(gpuFractionsCountStr)
-		if err != nil {
-			return v1.ResourceList{},
-				fmt.Errorf("failed to parse gpu fraction count annotation value <%s>, error: %s",
-					gpuFractionsCountStr, err.Error())
-		}
-		var successfulIntExtraction bool
-		fractionsCount, successfulIntExtraction = quantity.AsInt64()
-		if !successfulIntExtraction {
-			return v1.ResourceList{},
-				fmt.Errorf("failed to extract int value from gpu fraction count annotation. value <%s>",
-					gpuFractionsCountStr)
-		}
+	fractionsCount, err := getFractionsCount(pod)
+	if err != nil {
+		return v1.ResourceList{}, err
 	}
 
 	gpuFractionStr, hasAnnotation := pod.Annotations[constants.GpuFraction]
@@ -74,4 +61,23 @@ func ExtractGPUSharingRequestedResources(pod *v1.Pod) (v1.ResourceList, error) {
 	}
 
 	return resources, nil
+}
+
+// getFractionsCount returns the number of devices a GPU sharing pod asks its fraction (or memory) of
+func getFractionsCount(pod *v1.Pod) (int64, error) {
+	gpuFractionsCountStr, hasAnnotation := pod.Annotations[constants.GpuFractionsNumDevices]
+	if !hasAnnotation {
+		return 1, nil
+	}
+	quantity, err := resource.ParseQuantity(gpuFractionsCountStr)
+	if err != nil {
+		return 0, fmt.Errorf("failed to parse gpu fraction count annotation value <%s>, error: %s",
+			gpuFractionsCountStr, err.Error())
+	}
+	fractionsCount, successfulIntExtraction := quantity.AsInt64()
+	if !successfulIntExtraction {
+		return 0, fmt.Errorf("failed to extract int value from gpu fraction count annotation. value <%s>",
+			gpuFractionsCountStr)
+	}
+	return fractionsCount, nil
 }
